@@ -2,7 +2,7 @@
    Model: coq/model/Service.v.  Threads = nodes (one per process), any number of them, any
    programs of create / open / open_or_create / drop on ONE service name, any schedule (list of
    thread ids), any timeout budget T; one step = one libc call or one atomic registry operation. *)
-From V Require Import model.Base model.Conc model.Service proofs.ServiceVerifyProofs proofs.ServiceProofs.
+From V Require Import model.Base model.Conc model.Service proofs.ServiceVerifyProofs proofs.ServiceProofs proofs.ServiceRegistryProofs.
 Open Scope N_scope.
 
 (* ---------------------------------------------------------------------------------------------- *)
@@ -92,6 +92,86 @@ Proof. exact locked_registry_refuses. Qed.
 Print Assumptions c06_lifetime_partial_marked.
 
 (* ---------------------------------------------------------------------------------------------- *)
+(* the node registry and the lifetime of the resources (all interleavings of the refined protocol:  *)
+(* acquire = [lock check + cell CAS] ; [generation increment, LOCK re-checked];                     *)
+(* release(LockIfLastIndex) = [cell CAS + increment] ; [snapshot] ; [CAS generation -> LOCK])        *)
+(* Hypotheses: p_recheck P = true (the code re-checks; refuted without: c06_recheck_refuted), and          *)
+(* gmulti g = false: no release has reported Locked for a set that ANOTHER release had locked        *)
+(* (that happens in the code: c06_single_last_refuted).                                                    *)
+(* ---------------------------------------------------------------------------------------------- *)
+(* (1) the set of node ids in the registry of an instance that is not marked for destruction = the nodes that hold
+   a handle + the nodes in flight: inside open after the cell CAS, the creator between its initializer and the
+   hand-out, inside the drop of the last handle before the cell is cleared *)
+Theorem c06_registry_correspondence : forall P progs g ls,
+  p_recheck P = true -> reachable (step P) (init progs) (g, ls) -> gmulti g = false -> forall i x t,
+  get_inst g i = Some x -> i_locked x = false ->
+  (In t (i_members x) <->
+   regi (ls t) = Some i \/ pcl (at_pc (ls t)) = CUnconf i \/ pcl (at_pc (ls t)) = CInit i \/ pcl (at_pc (ls t)) = CDropPre i).
+Proof. exact registry_correspondence. Qed.
+Print Assumptions c06_registry_correspondence.
+
+Theorem c06_handles_registered : forall P progs g ls,
+  p_recheck P = true -> reachable (step P) (init progs) (g, ls) -> gmulti g = false -> forall t j c,
+  In (j, c) (handles (ls t)) -> regi (ls t) = Some j /\ nreg (ls t) = length (handles (ls t)).
+Proof. exact handles_registered. Qed.
+Print Assumptions c06_handles_registered.
+
+(* (2) never earlier: while a node holds a handle the instance is completely initialised and not marked for destruction,
+   its dynamic config exists, its static config is the file linked under the name, the node is in its registry *)
+Theorem c06_holder_resources_exist : forall P progs g ls,
+  p_recheck P = true -> reachable (step P) (init progs) (g, ls) -> gmulti g = false -> forall t j c,
+  In (j, c) (handles (ls t)) ->
+  exists x, get_inst g j = Some x /\ i_dy x = DFinal /\ i_locked x = false /\ i_dy_linked x = true /\ cur g = Some j /\
+            In t (i_members x).
+Proof. exact holder_resources_exist. Qed.
+Print Assumptions c06_holder_resources_exist.
+
+(* ... a locked registry has no holder, no creator about to hand out, nobody about to deregister: a late opener whose
+   cell CAS slipped in is the only kind of member left, and it fails the re-check (c06_late_opener_refused) *)
+Theorem c06_locked_no_holder : forall P progs g ls,
+  p_recheck P = true -> reachable (step P) (init progs) (g, ls) -> gmulti g = false -> forall i x t,
+  get_inst g i = Some x -> i_locked x = true ->
+  (forall c, ~ In (i, c) (handles (ls t))) /\ regi (ls t) <> Some i /\
+  pcl (at_pc (ls t)) <> CInit i /\ pcl (at_pc (ls t)) <> CDropPre i.
+Proof. exact locked_no_holder. Qed.
+Print Assumptions c06_locked_no_holder.
+
+Theorem c06_late_opener_refused : forall P t g l j own x,
+  p_recheck P = true -> at_pc l = RIncr j own -> get_inst g j = Some x -> i_locked x = true ->
+  exists g' l' es, step P t g l = Some (g', l', es) /\ handles l' = handles l /\ nreg l' = nreg l /\ insts g' = insts g.
+Proof. exact late_opener_refused. Qed.
+Print Assumptions c06_late_opener_refused.
+
+(* exactly when: the resources are removed only by the thread whose release locked the registry (one per instance),
+   only after the lock, and the static config it removes is the instance's own *)
+Theorem c06_removal_only_when_locked : forall P progs g ls,
+  p_recheck P = true -> reachable (step P) (init progs) (g, ls) -> gmulti g = false -> forall t h,
+  pcl (at_pc (ls t)) = CRem h ->
+  cur g = Some h /\ exists x, get_inst g h = Some x /\ i_dy x = DFinal /\ i_locked x = true.
+Proof. exact removal_only_when_locked. Qed.
+Print Assumptions c06_removal_only_when_locked.
+
+Theorem c06_one_remover : forall P progs g ls,
+  p_recheck P = true -> reachable (step P) (init progs) (g, ls) -> gmulti g = false -> forall t t' h,
+  pcl (at_pc (ls t)) = CRem h -> pcl (at_pc (ls t')) = CRem h -> t = t'.
+Proof. exact one_remover. Qed.
+Print Assumptions c06_one_remover.
+
+Theorem c06_unlinked_only_after_lock : forall P progs g ls,
+  p_recheck P = true -> reachable (step P) (init progs) (g, ls) -> gmulti g = false -> forall i x,
+  get_inst g i = Some x -> i_dy x = DFinal -> i_dy_linked x = false -> i_locked x = true.
+Proof. exact unlinked_only_after_lock. Qed.
+Print Assumptions c06_unlinked_only_after_lock.
+
+(* a completely initialised instance that is not marked for destruction is the one linked under the name: no second
+   create can succeed while it lives *)
+Theorem c06_live_is_linked : forall P progs g ls,
+  p_recheck P = true -> reachable (step P) (init progs) (g, ls) -> gmulti g = false -> forall i x,
+  get_inst g i = Some x -> i_dy x = DFinal -> i_locked x = false -> cur g = Some i.
+Proof. exact live_is_linked. Qed.
+Print Assumptions c06_live_is_linked.
+
+(* ---------------------------------------------------------------------------------------------- *)
 (* concrete executions: non-vacuity, and the clauses that are FALSE of the faithful model         *)
 (* ---------------------------------------------------------------------------------------------- *)
 Definition td_u64 : tdetail := mkTd 0 1 8 8.
@@ -102,8 +182,10 @@ Definition reqA : req := mkReq PubSub true [Some 1; None; None; None; None; None
 Definition reqB : req := mkReq PubSub true [Some 2; None; None; None; None; None; Some 1] [td_u64] [] [] [] false.
 Definition reqU : req := mkReq PubSub true [None; None; None; None; None; None; None] [td_u64] [] [] [] false.
 Definition reqBb : req := mkReq Blackboard true [None; None] [td_u64] [] [] [] false.
-Definition P0 : params := mkP 0 defs.
-Definition P9 : params := mkP 9 defs.
+Definition P0 : params := mkP 0 defs true.
+Definition P9 : params := mkP 9 defs true.
+(* the same without the re-check of the LOCK indicator in acquire() *)
+Definition P9nr : params := mkP 9 defs false.
 
 Definition progs2 (a b : list op) (t : nat) : list op := match t with O => a | S O => b | _ => [] end.
 
@@ -135,32 +217,25 @@ Definition finished (c : cfg gst lst) (t : nat) : bool :=
   match at_pc (snd c t), prog (snd c t) with Idle, [] => true | _, _ => false end.
 Definition solo_bound (P : params) : nat := 60 * S (p_T P) * S (p_T P).
 
-(* every call returns within the budget whatever the others do (here: even if they do nothing) *)
+(* every call returns within the budget whatever the others do (here: even if they do nothing).
+   Status: no longer refuted -- the only witness was open's retry of a zero-sized dynamic config without a timeout check,
+   repaired in /repo by 868edb1 and in the model (ODyFstatSize); not proved: it needs a lexicographic measure over
+   (open_or_create iterations, waits of the open call, retries of the inner loop, position in the step list).  What is
+   proved: every one of the three waiting loops gives up at the budget (c06_terminates_partial), and the former witness
+   schedule now ends with HangsInCreation (c06_spin_regression). *)
 Definition c06_terminates_full : Prop :=
   forall P progs c t, reachable (step P) (init progs) c -> (forall t', length (progs t') <= 1)%nat ->
     exists k, (k <= solo_bound P)%nat /\ finished (fst (run (step P) (repeat t k) c)) t = true.
 
-(* witness: the creator stands between shm_open(O_CREAT|O_EXCL) and ftruncate of the dynamic config; the opener
-   (budget T = 0) retries MappingSizeIsZero for ever: open_impl has no timeout check on that branch
-   (known finding open:zero-size-dynamic-config-spins-without-timeout) *)
+(* the creator stands between shm_open(O_CREAT|O_EXCL) and ftruncate of the dynamic config; the opener (budget T = 0)
+   now comes back with HangsInCreation, having removed the service tag it created *)
 Definition spin_sched : list nat := repeat 0%nat 13.
 Definition spin_cfg := fst (run (step P0) spin_sched (init (progs2 [OCreate reqA] [OOpen reqU]))).
-Lemma c06_open_spin_refuted :
-  forallb (fun k => negb (finished (fst (run (step P0) (repeat 1 k)%nat spin_cfg)) 1%nat)) (seq 0 (S (solo_bound P0))) = true.
-Proof. vm_compute. reflexivity. Qed.
-Print Assumptions c06_open_spin_refuted.
-
-Theorem c06_terminates_refuted : ~ c06_terminates_full.
-Proof.
-  intros H.
-  destruct (H P0 (progs2 [OCreate reqA] [OOpen reqU]) spin_cfg 1%nat) as (k & Hk & Hf).
-  - unfold spin_cfg; apply reachable_run.
-  - intros [|[|t']]; cbn; auto.
-  - pose proof c06_open_spin_refuted as Hs. rewrite forallb_forall in Hs.
-    assert (Hin : In k (seq 0 (S (solo_bound P0)))) by (apply in_seq; lia).
-    specialize (Hs k Hin). rewrite Hf in Hs. discriminate.
-Qed.
-Print Assumptions c06_terminates_refuted.
+Example c06_spin_regression :
+  let c := fst (run (step P0) (repeat 1 20)%nat spin_cfg) in
+  finished c 1%nat = true /\ rets (snd c 1%nat) = [RErr SOpen HangsInCreation] /\ tags (fst c) = [0%nat].
+Proof. vm_compute. repeat split. Qed.
+Print Assumptions c06_spin_regression.
 
 (* no create / open_or_create can reach the fatal_panic of DynamicConfig::init: the settings it writes never have a
    zero container capacity, for every pattern, payload kind, defaults and requirement (after fix c6a737e the slice
@@ -169,18 +244,23 @@ Theorem c06_created_settings_never_panic : forall defs r k, k <> KOpen -> init_p
 Proof. exact created_settings_never_panic. Qed.
 Print Assumptions c06_created_settings_never_panic.
 
-(* what holds: the two waiting loops that DO check the budget stop there (step level):
-   the static-config wait gives up after T ticks, the permission wait of the dynamic config at T ticks *)
+(* the three waiting loops check the budget (step level): the static-config wait gives up after T ticks, the
+   zero-size wait and the permission wait of the dynamic config at T ticks *)
 Theorem c06_terminates_partial : forall P t g l j n x,
   get_inst g j = Some x ->
   (at_pc l = PFstat2 j n -> st_is_init x = true -> (p_T P < n)%nat -> cur_kind l = KOpen -> in_ooc l = None -> (p_T P <= used l)%nat ->
      exists g' l' es, step P t g l = Some (g', l', es) /\ rets l' = rets l ++ [RErr SOpen HangsInCreation]) /\
+  (at_pc l = ODyFstatSize j false n -> i_dy x = DCreated -> (p_T P <= n)%nat -> in_ooc l = None -> (p_T P <= used l)%nat ->
+     exists g' l' es, step P t g l = Some (g', l', es) /\ rets l' = rets l ++ [RErr SOpen HangsInCreation]) /\
   (at_pc l = ODyFstatPerm j false n -> i_dy x = DSized -> (p_T P <= n)%nat -> in_ooc l = None -> (p_T P <= used l)%nat ->
      exists g' l' es, step P t g l = Some (g', l', es) /\ rets l' = rets l ++ [RErr SOpen HangsInCreation]).
 Proof.
-  intros P t g l j n x Hx. split.
+  intros P t g l j n x Hx. split; [|split].
   - intros Epc Hi Hn Ek Eo Hu. unfold step, with_inst. rewrite Epc, Hx, Hi.
     apply Nat.ltb_lt in Hn. rewrite Hn. unfold avail_hangs. rewrite Ek. unfold wait_retry.
+    apply Nat.leb_le in Hu. rewrite Hu. unfold call_fails. rewrite Eo. unfold op_done, op_done_k. eexists _, _, _. split; reflexivity.
+  - intros Epc Hd Hn Eo Hu. unfold step, with_inst. rewrite Epc, Hx, Hd.
+    apply Nat.leb_le in Hn. rewrite Hn. unfold fail_with_tag, run_cont, wait_retry.
     apply Nat.leb_le in Hu. rewrite Hu. unfold call_fails. rewrite Eo. unfold op_done, op_done_k. eexists _, _, _. split; reflexivity.
   - intros Epc Hd Hn Eo Hu. unfold step, with_inst. rewrite Epc, Hx, Hd.
     apply Nat.leb_le in Hn. rewrite Hn. unfold fail_with_tag, run_cont, wait_retry.
@@ -213,18 +293,81 @@ Proof.
 Qed.
 Print Assumptions c06_no_spurious_corruption_partial.
 
+(* ---- the re-check of acquire() is needed ---- *)
+Definition progs3 (a b c : list op) (t : nat) : list op := match t with O => a | S O => b | S (S O) => c | _ => [] end.
+(* last user leaves || late opener registers: the opener's cell CAS lands between the leaver's snapshot (0 cells) and
+   its CAS generation -> LOCK *)
+Definition late_sched : list nat := (repeat 0 17 ++ repeat 1 15 ++ repeat 0 4 ++ [1] ++ repeat 0 5 ++ repeat 1 3)%nat.
+Definition late_progs := progs2 [OCreate reqA; ODrop 0] [OOpen reqU].
+Definition c06_holder_resources_norecheck_full : Prop :=
+  forall P progs g ls t j c, reachable (step P) (init progs) (g, ls) -> gmulti g = false ->
+    In (j, c) (handles (ls t)) -> exists x, get_inst g j = Some x /\ i_locked x = false /\ i_dy_linked x = true.
+Definition late_nr := fst (run (step P9nr) late_sched (init late_progs)).
+Theorem c06_recheck_refuted : ~ c06_holder_resources_norecheck_full.
+Proof.
+  intros H.
+  assert (Hin : In (0%nat, mk_cfg (defs PubSub) reqA KCreate) (handles (snd late_nr 1%nat))) by (vm_compute; left; reflexivity).
+  assert (Hr : reachable (step P9nr) (init late_progs) (fst late_nr, snd late_nr)) by (unfold late_nr; apply reachable_run_pair).
+  assert (Hmul : gmulti (fst late_nr) = false) by (vm_compute; reflexivity).
+  destruct (H P9nr late_progs (fst late_nr) (snd late_nr) 1%nat 0%nat (mk_cfg (defs PubSub) reqA KCreate) Hr Hmul Hin) as (x & Hx & Hl & _).
+  assert (Hx' : exists y, get_inst (fst late_nr) 0%nat = Some y /\ i_locked y = true) by (eexists; vm_compute; split; reflexivity).
+  destruct Hx' as (y & Hy & Hyl). congruence.
+Qed.
+Print Assumptions c06_recheck_refuted.
+
+(* the same schedule with the re-check: the opener gets IsMarkedForDestruction, the service is gone *)
+Definition late_rc := fst (run (step P9) late_sched (init late_progs)).
+Example c06_recheck_nonvacuous :
+  rets (snd late_rc 1%nat) = [RErr SOpen IsMarkedForDestruction] /\ handles (snd late_rc 1%nat) = [] /\
+  rets (snd late_rc 0%nat) = [ROk 0 (mk_cfg (defs PubSub) reqA KCreate); RDropped] /\
+  listing (fst late_rc) = (0, 0, 0)%nat /\ gmulti (fst late_rc) = false.
+Proof. vm_compute. repeat split. Qed.
+Print Assumptions c06_recheck_nonvacuous.
+
+(* ---- release(LockIfLastIndex) reports Locked to more than one releaser ---- *)
+(* two holders drop concurrently: both clear their cells, one locks, the other finds the set locked (lock(): `if
+   self.is_locked() { return Locked }`) and gets NoMoreOwners as well *)
+Definition c06_single_last_full : Prop :=
+  forall P progs g ls, p_recheck P = true -> reachable (step P) (init progs) (g, ls) -> gmulti g = false.
+Definition multi_progs := progs3 [OCreate reqA; ODrop 0] [OOpen reqU; ODrop 0] [OCreate reqB].
+Definition multi_sched : list nat :=
+  (repeat 0 17 ++ repeat 1 17 ++ repeat 0 3 ++ repeat 1 3 ++ repeat 0 2 ++ repeat 1 1 ++ repeat 0 3 ++ repeat 2 17 ++ repeat 1 3)%nat.
+Definition multi_cfg := fst (run (step P9) multi_sched (init multi_progs)).
+Theorem c06_single_last_refuted : ~ c06_single_last_full.
+Proof.
+  intros H.
+  assert (Hr : reachable (step P9) (init multi_progs) (fst multi_cfg, snd multi_cfg)) by (unfold multi_cfg; apply reachable_run_pair).
+  specialize (H P9 multi_progs (fst multi_cfg) (snd multi_cfg) eq_refl Hr). vm_compute in H. discriminate.
+Qed.
+Print Assumptions c06_single_last_refuted.
+
+(* consequence: the slower of the two removes the static config BY NAME after a new service was created under it: a
+   live instance (held, not marked for destruction) whose static config is gone *)
+Definition c06_live_is_linked_full : Prop :=
+  forall P progs g ls i x, p_recheck P = true -> reachable (step P) (init progs) (g, ls) ->
+    get_inst g i = Some x -> i_dy x = DFinal -> i_locked x = false -> cur g = Some i.
+Theorem c06_live_is_linked_refuted : ~ c06_live_is_linked_full.
+Proof.
+  intros H.
+  assert (Hr : reachable (step P9) (init multi_progs) (fst multi_cfg, snd multi_cfg)) by (unfold multi_cfg; apply reachable_run_pair).
+  assert (Hx : exists x, get_inst (fst multi_cfg) 1%nat = Some x /\ i_dy x = DFinal /\ i_locked x = false /\ i_members x = [2%nat])
+    by (eexists; vm_compute; repeat split).
+  destruct Hx as (x & Hx & Hd & Hl & _).
+  specialize (H P9 multi_progs (fst multi_cfg) (snd multi_cfg) 1%nat x eq_refl Hr Hx Hd Hl). vm_compute in H. discriminate.
+Qed.
+Print Assumptions c06_live_is_linked_refuted.
+
 (* ---- lifetime ---- *)
 Definition quiescent (ls : nat -> lst) : Prop := forall t, at_pc (ls t) = Idle.
 (* when nobody is inside a call: the dynamic config of an instance exists iff its registry is unlocked and non-empty *)
 Definition c06_lifetime_full : Prop :=
   forall P progs g ls i x, reachable (step P) (init progs) (g, ls) -> quiescent ls -> get_inst g i = Some x ->
-    (i_dy_linked x = true <-> (i_locked x = false /\ i_members x <> [])).
+    (i_dy x = DFinal -> gmulti g = false -> (i_dy_linked x = true <-> (i_locked x = false /\ i_members x <> []))).
 
-(* Status: NOT refuted any more (the only witness was the dynamic config leaked by the panicking slice create,
-   repaired by c6a737e) and NOT proved.  Missing for a proof: (1) the registry/handle correspondence
-   "i_members x = the threads t with nreg (ls t) > 0 whose handles refer to i, or standing in DRmTag i / DDereg i"
-   as part of the invariant (it needs: all handles of a node refer to one instance, length handles = nreg outside
-   drop, owner-stage facts for CDyInit); (2) that CPanicRmStatic is unreachable, i.e. every instance's settings come
-   from mk_cfg with a kind <> KOpen (then c06_created_settings_never_panic applies); (3) i_dy_linked x = true exactly
-   between CDyOpen and DDyUnlink.  The G3 tie checks this clause on every history (`ls=` = linked dynamic configs
-   against the model, `end` line: nothing left) and the G2 tie on every explored interleaving (F line). *)
+(* Status: not refuted (the former witness was the leak of the repaired slice-builder panic), not proved.  Proved
+   instead: c06_registry_correspondence, c06_holder_resources_exist, c06_locked_no_holder, c06_removal_only_when_locked,
+   c06_unlinked_only_after_lock (never earlier; removal only by the locker, after the lock).  Missing for the "<-" direction
+   at quiescence (an instance without members IS locked and removed): the progress invariant "unlocked, final, no member
+   => some releaser stands between its cell CAS and its CAS generation -> LOCK with a snapshot that will be retried or
+   succeed", and "locked => the locker stands in the removal steps or has finished them". *)
+
